@@ -2,5 +2,5 @@ CONSTANTS KindDesc <- Desc_fixbuf_bounddim Shapes <- ShapesQuick MaxHist = 4
 SPECIFICATION Spec
 VIEW View
 INVARIANT Inv
-PROPERTIES RefusedChangesNothing WriteTouchesOne
+PROPERTIES RefusedChangesNothing WriteTouchesOne CastChangesNothing
 CHECK_DEADLOCK FALSE
